@@ -540,4 +540,5 @@ def rules(tier):
     from . import carry, c04
     return [rule_pipeline, rule_docfreq, rule_window, rule_reindex, rule_lookup, rule_row, rule_tfidf,
             carry.make_clone_rule("R-C17-clone", {CRATE}, 8), carry.make_setter_rule("R-C17-override", {CRATE}, 4),
-            c04.make_carry_rule("R-C17-carry", {"CountVectorizerParams"}, 4)]
+            c04.make_carry_rule("R-C17-carry", {"CountVectorizerParams"}, 4),
+            carry.make_accessor_rule("R-C17-accessor", {"linfa_preprocessing"}, 6), carry.make_ctor_rule("R-C17-ctor", {"linfa_preprocessing"}, 2)]
